@@ -608,6 +608,54 @@ class MayRaise:
                 return True
         return False
 
+    def unbound_in_handler(self, t: ast.Try, h: ast.ExceptHandler, ctx) -> Set[Esc]:
+        """A handler that reads a local which is first bound inside the try body, when a statement at or before that binding
+        can raise something the handler catches: the read raises UnboundLocalError."""
+        fi: FuncInfo = ctx["fi"]
+        if isinstance(fi.node, ast.Lambda):
+            return set()
+        loads = {}
+        for b in h.body:
+            for x in ast.walk(b):
+                if isinstance(x, ast.Name) and isinstance(x.ctx, ast.Load):
+                    loads.setdefault(x.id, x)
+        if not loads:
+            return set()
+        params = set(fi.params())
+        a_ = fi.node.args
+        if a_.vararg:
+            params.add(a_.vararg.arg)
+        if a_.kwarg:
+            params.add(a_.kwarg.arg)
+        in_try = {id(x) for b in t.body for x in ast.walk(b)}
+        out: Set[Esc] = set()
+        for name, node in loads.items():
+            if name in params or name == h.name:
+                continue
+            stores = [x for x in ast.walk(fi.node) if isinstance(x, ast.Name) and x.id == name and isinstance(x.ctx, ast.Store)]
+            stores += [x for x in ast.walk(fi.node) if isinstance(x, ast.ExceptHandler) and x.name == name]
+            if not stores or any(id(x) not in in_try and getattr(x, "lineno", 0) < t.lineno for x in stores):
+                continue          # not a local, or (possibly) bound before the try statement
+            if any(id(x) not in in_try for x in stores):
+                continue          # also bound elsewhere after the try (a loop could get here again): not decided
+            # index of the first top-level statement of the try body that binds the name unconditionally
+            first = None
+            for i, b in enumerate(t.body):
+                if any(isinstance(x, ast.Name) and x.id == name and isinstance(x.ctx, ast.Store) for x in ast.walk(b)):
+                    first = i
+                    break
+            if first is None:
+                continue
+            for b in t.body[:first + 1]:
+                raised = self.stmt(b, ctx)
+                if any(self.handler_matches(e, h, fi.module) for e in raised):
+                    why = f"`{name}` is first bound by `{norm(t.body[first])[:50]}` inside the try; `{norm(b)[:50]}` can raise something this handler catches before that"
+                    esc = self.site(ctx, node, "unbound-local", "UnboundLocalError", False, why)
+                    if esc:
+                        out.add(esc)
+                    break
+        return out
+
     def stmt(self, s: ast.stmt, ctx) -> Set[Esc]:
         fi: FuncInfo = ctx["fi"]
         out: Set[Esc] = set()
@@ -622,6 +670,7 @@ class MayRaise:
                     hv[h.name] = frozenset(caught)
                 hctx = dict(ctx, caught=frozenset(caught), handler_var=h.name, handler_vars=hv)
                 out |= self.block(h.body, hctx)
+                out |= self.unbound_in_handler(s, h, ctx)
             out |= remaining
             out |= self.block(s.orelse, ctx)
             out |= self.block(s.finalbody, ctx)
